@@ -9,6 +9,7 @@ git -C /repo worktree add --detach -f $WT HEAD >/dev/null 2>&1 || { echo "cannot
 trap 'git -C /repo worktree remove --force $WT; git -C /verif checkout -- evidence 2>/dev/null' EXIT
 fail=0
 SEEDS="$@"; [ -z "$SEEDS" ] && SEEDS=$(ls seeded | grep '^S')
+[ -n "$ONLY_BENIGN" ] && SEEDS=""   # ONLY_BENIGN=1: just the benign refactorings
 for S in $SEEDS; do
   [ -f seeded/$S/patch.diff ] || continue
   P=$(python3 -c "import json;print(json.load(open('seeded/$S/meta.json'))['breaks_property'])")
